@@ -2,9 +2,15 @@ CONSTANTS
   Dev_AdoptClientSecurity = FALSE
   Dev_IgnoreSigFailure = FALSE
   Dev_TokenKeyLimits = FALSE
+  Dev_StatusSkipsVerify = FALSE
+  Dev_CloseOnce = FALSE
+  Dev_RecycledConfig = FALSE
   Dev_AdvertiseExtra = FALSE
   Dev_DropPolicy = ""
   Dev_WrongTokenPolicy = FALSE
+  SresSet = {"good"}
+  MaxAttempts = 1
+  Histories = {"none"}
   ConfigSet = "interopq"
   Scripted = FALSE
   Intents = {"endpoint"}
